@@ -70,6 +70,7 @@ class Sim(object):
         self.up = set()           # (a,b): a believes its connection to b is up
         # observation logs (what the property monitors read)
         self.execs = collections.defaultdict(list)     # node -> [(position, cmd)]
+        self.results = collections.defaultdict(dict)   # node -> position -> value returned by the execution
         self.callbacks = []                            # (node, cb_id, result, err)
         self.state_changes = []                        # (node, term_at_change, old, new)
         self.sent = []                                 # (src, dst, msg) every message handed to the transport
@@ -115,6 +116,7 @@ class Sim(object):
             def add(self, x):
                 sim.execs[self._nid].append((self.raftLastApplied + 1, x))
                 self.log.append(x)
+                sim.results[self._nid][self.raftLastApplied + 1] = len(self.log)
                 return len(self.log)
 
             @so.replicated
